@@ -2,6 +2,8 @@
 
 `ACCEPTED`: small straight-line functions inside the subset, read two ways: CPython running the text on numpy arrays
 (result AND every argument afterwards — aliasing is what is tested), `pyarr.evaluate` on the statement list.
+`BLOCK_PROGRAMS`: three functions WITH a T8 block loop over a sliding-window view (private output, aliased output, copy of an
+alias), read by `pyarr.evaluate` and by CPython on numpy with Pandora's own `sliding_window`; the aliased one must differ.
 `REFUSED`: functions outside the subset — each must raise `Unsupported` (nothing is guessed).
 """
 from __future__ import annotations
@@ -71,7 +73,106 @@ REFUSED = {
     "tuple assignment that is not a shape": "def f(a, flags):\n    b, c = a, a\n    return a\n",
 }
 
+# the construct seed C10-6 lives in: a T8 block loop writing `out` while the windows are VIEWS of `data` — once with a private
+# output, once with `out = data` (later blocks then read written cells).  Small chunks so that 7 x 8 maps cross blocks.
+BLOCK_PROGRAMS = {
+    "blocks_private_output": "        out = np.copy(data)\n",
+    "blocks_aliased_output": "        out = data\n",
+    "blocks_copy_of_alias": "        tmp = data\n        out = np.copy(tmp)\n",
+}
+BLOCK_TEMPLATE = '''
+class SelfTest:
+    def NAME(self, data):
+BINDING        bad = np.isnan(out)
+        n_rows, n_cols = data.shape
+        wins = sliding_window(data, (self._size, self._size))
+        half = int(self._size / 2)
+        step = 3
+        rows_chunks = np.array_split(wins, np.arange(step, n_rows, step), axis=0)
+        y_begin = half
+        for chunk_y in rows_chunks:
+            cols_chunks = np.array_split(chunk_y, np.arange(step, n_cols, step), axis=1)
+            x_begin = half
+            for chunk_x in cols_chunks:
+                y_end = y_begin + chunk_y.shape[0]
+                x_end = x_begin + chunk_x.shape[1]
+                out[y_begin:y_end, x_begin:x_end] = np.nanmedian(chunk_x, axis=(2, 3))
+                x_begin += chunk_x.shape[1]
+            y_begin += chunk_y.shape[0]
+        out[bad] = np.nan
+        return out
+'''
+
 CONSTS = {"PANDORA_MSK_PIXEL_INVALID": 963}
+
+
+def block_problems(seed=0):
+    """accepted programs WITH a block loop, read three ways: `pyarr.evaluate` on the statement list, CPython running the text
+    on numpy arrays with Pandora's own `sliding_window` (an independent interpreter of the whole function), and — for the
+    aliased variant — the requirement that the two DIFFER from the private-output variant on a map crossing a block."""
+    import os
+    import random
+    import tempfile
+    import types
+    import warnings
+
+    import numpy as np
+
+    from . import gen_blocks
+
+    try:
+        from pandora.common import sliding_window
+    except Exception as exc:  # pylint: disable=broad-except
+        return [f"block self-test: pandora.common.sliding_window not importable: {exc}"]
+    rng = random.Random(seed + 17)
+    out, results = [], {}
+    maps = []
+    for _ in range(5):
+        ny, nx = rng.choice([(7, 8), (3, 9), (8, 4), (5, 5)])
+        a = np.array([[float(rng.randrange(-9, 10)) for _ in range(nx)] for _ in range(ny)])
+        a[rng.randrange(ny), rng.randrange(nx)] = np.nan
+        maps.append(a)
+    for name, binding in BLOCK_PROGRAMS.items():
+        text = BLOCK_TEMPLATE.replace("NAME", name).replace("BINDING", binding)
+        with tempfile.NamedTemporaryFile("w", suffix=".py", delete=False) as fh:
+            fh.write(text)
+            path = fh.name
+        try:
+            spec = pyarr.Spec(path, "SelfTest", name, name, arrays={"data": "data"}, nats={"self._size": "size"},
+                              t8=("selftest", "self._size"))
+            fn = pyarr.read_function(spec)
+            t8 = {"selftest": gen_blocks.extract_one(path, "SelfTest", name, "self._size")}
+        except Unsupported as exc:
+            out.append(f"{name}: refused: {exc}")
+            continue
+        finally:
+            os.unlink(path)
+        env = {"np": np, "sliding_window": sliding_window}
+        exec(compile(text, "<selftest>", "exec"), env)  # pylint: disable=exec-used
+        obj = types.SimpleNamespace(_size=3)
+        results[name] = []
+        for a in maps:
+            st = pyarr.PStore([[[pyarr.NAN if np.isnan(v) else Fraction(float(v)) for v in row] for row in a]])
+            k = pyarr.evaluate(fn, st, a.shape[0], a.shape[1], {"data": 0}, nats={"size": 3}, t8=t8)
+            arg = a.copy()
+            with warnings.catch_warnings():
+                warnings.simplefilter("ignore")
+                real = getattr(env["SelfTest"], name)(obj, arg)
+
+            def same(x, y):
+                return all((pyarr.is_nan(p) and np.isnan(q)) or (not pyarr.is_nan(p) and not np.isnan(q) and p == Fraction(float(q)))
+                           for rp, rq in zip(x, y) for p, q in zip(rp, rq))
+
+            if not same(st.arr[k], real) or not same(st.arr[0], arg):
+                out.append(f"{name}: evaluator differs from CPython (result or argument afterwards) on a {a.shape} map")
+                break
+            results[name].append([[None if pyarr.is_nan(v) else v for v in row] for row in st.arr[k]])
+    if not out and results.get("blocks_private_output") == results.get("blocks_aliased_output"):
+        out.append("block self-test: the aliased output gives the same maps as the private one (aliasing not exercised)")
+    if not out and results.get("blocks_private_output") != results.get("blocks_copy_of_alias"):
+        out.append("block self-test: a copy of an alias differs from a copy")
+    return out
+
 
 
 def _spec(name):
